@@ -115,15 +115,16 @@ type watIns struct {
 }
 
 type watFunc struct {
-	Name    string
-	Params  []string // value types
-	Results []string
-	Locals  int
-	Export  string
-	Import  [2]string
-	Body    []watIns
-	Line    int
-	File    string
+	Name       string
+	Params     []string // value types
+	ParamNames []string // $names, "" for anonymous parameters
+	Results    []string
+	Locals     int
+	Export     string
+	Import     [2]string
+	Body       []watIns
+	Line       int
+	File       string
 }
 
 type watModule struct {
@@ -233,9 +234,18 @@ func readWatFunc(f *sx) *watFunc {
 			if it.isList() {
 				switch it.head() {
 				case "param":
+					if depth > 0 || len(fn.Body) > 0 {
+						break // a block type, not the function's signature
+					}
+					pname := ""
 					for _, c := range it.list[1:] {
+						if !c.isList() && strings.HasPrefix(c.atom, "$") {
+							pname = c.atom
+						}
 						if watValTypes[c.atom] {
 							fn.Params = append(fn.Params, c.atom)
+							fn.ParamNames = append(fn.ParamNames, pname)
+							pname = ""
 						}
 					}
 				case "result":
@@ -243,6 +253,13 @@ func readWatFunc(f *sx) *watFunc {
 						for _, c := range it.list[1:] {
 							if watValTypes[c.atom] {
 								fn.Results = append(fn.Results, c.atom)
+							}
+						}
+					} else if n := len(fn.Body); n > 0 && (fn.Body[n-1].Op == "block" || fn.Body[n-1].Op == "loop" || fn.Body[n-1].Op == "if") {
+						// block type: remember the result arity on the opening instruction
+						for _, c := range it.list[1:] {
+							if watValTypes[c.atom] {
+								fn.Body[n-1].Args = append(fn.Body[n-1].Args, "result:"+c.atom)
 							}
 						}
 					}
